@@ -97,3 +97,95 @@ def run_rewire(rep, tier):
     finally:
         ws.close()
     return [], fails
+
+
+# ---- one type, several spellings ---------------------------------------------------------------------------
+# Identical unnamed types can be written in more than one way (`any` / `interface{}`, parameter names in function types, method
+# order in interface literals, byte / uint8, rune / int32).  Every consumer, however it spells the type, must receive the one
+# value its provider built, and the provider must run once.
+SPELLINGS = [
+    ("map[string]any", "map[string]interface{}", "map[string]any{\"k\": 1}", "fmt.Sprintf(\"%p\", x)"),
+    ("func(n int) error", "func(int) error", "func(int) error { return nil }", "fmt.Sprintf(\"%p\", x)"),
+    ("interface{ A(); B() }", "interface{ B(); A() }", "ab{}", "fmt.Sprintf(\"%p\", x)"),
+    ("[]byte", "[]uint8", "make([]byte, 3)", "fmt.Sprintf(\"%p\", x)"),
+    ("map[rune]bool", "map[int32]bool", "map[rune]bool{}", "fmt.Sprintf(\"%p\", x)"),
+    ("chan<- struct{ X int }", "chan<- struct{ X int }", "make(chan<- struct{ X int })", "fmt.Sprintf(\"%p\", x)"),
+    ("*[2]func(a, b int)", "*[2]func(int, int)", "new([2]func(int, int))", "fmt.Sprintf(\"%p\", x)"),
+]
+
+
+def run_spellings(rep, tier):
+    import random
+    from .common import seed
+    rng = random.Random(seed() * 911 + 2)
+    ncase = 8 if tier == "quick" else 60
+    ws = Workspace()
+    fails = []
+    try:
+        cases = []
+        for k in range(ncase):
+            pkg = "sp%d" % k
+            picks = rng.sample(range(len(SPELLINGS)), rng.randint(1, 4))
+            d = ws.root + "/" + pkg
+            os.makedirs(d)
+            L = ["package %s" % pkg, "", 'import "fmt"', "", "var Calls []string", "", "type ab struct{}", "", "func (*ab) A() {}", "",
+                 "func (*ab) B() {}", "", "var _ = fmt.Sprint", ""]
+            provs, fields, nuse = [], [], {}
+            for i in picks:
+                a, b, val, _ = SPELLINGS[i]
+                val = "&ab{}" if val == "ab{}" else val
+                L.append("func Provide%d() %s {\n\tCalls = append(Calls, \"p%d\")\n\treturn %s\n}\n" % (i, rng.choice([a, b]), i, val))
+                provs.append("Provide%d" % i)
+                n = rng.randint(2, 3)
+                nuse[i] = n
+                for c in range(n):
+                    sp = [a, b][c % 2] if rng.random() < 0.8 else rng.choice([a, b])
+                    L.append("type C%d_%d struct{ Seen string }\n" % (i, c))
+                    L.append("func NewC%d_%d(x %s) C%d_%d { return C%d_%d{Seen: fmt.Sprintf(\"%%p\", x)} }\n" % (i, c, sp, i, c, i, c))
+                    provs.append("NewC%d_%d" % (i, c))
+                    fields.append("C%d_%d" % (i, c))
+            L.append("type App struct {\n%s\n}\n" % "\n".join("\tF%s %s" % (f, f) for f in fields))
+            open(d + "/types.go", "w").write("\n".join(L))
+            rng.shuffle(provs)
+            open(d + "/wire.go", "w").write("//go:build wireinject\n// +build wireinject\n\npackage %s\n\nimport \"github.com/google/wire\"\n\n"
+                                            "func Init() App {\n\tpanic(wire.Build(%s, wire.Struct(new(App), \"*\")))\n}\n" % (pkg, ", ".join(provs)))
+            cases.append((pkg, picks, nuse, fields))
+        results = ws.wire_many([["gen", "./" + c[0]] for c in cases], timeout=120)
+        ok = []
+        for c, (rc, out, err) in zip(cases, results):
+            rep.evaluations += 1
+            rep.nontrivial.add("spell/" + c[0])
+            if rc != 0 or panicked(err):
+                fails.append({"stream": "c02-spellings", "why": ["wire gen fails on a well-formed program: " + err.strip()[-300:]], "package": c[0]})
+            else:
+                ok.append(c)
+        os.makedirs(ws.root + "/cmd/spell")
+        L = ["package main", "", "import (", '\t"fmt"', '\t"reflect"'] + ['\t"%s/%s"' % (MOD, c[0]) for c in ok] + [")", "", "func main() {"]
+        for pkg, picks, nuse, fields in ok:
+            L.append("\t{\n\t\t%s.Calls = nil\n\t\ta := %s.Init()\n\t\tv := reflect.ValueOf(a)\n\t\tfor i := 0; i < v.NumField(); i++ {\n"
+                     "\t\t\tfmt.Println(\"%s\", v.Type().Field(i).Name, v.Field(i).Field(0).String())\n\t\t}\n\t\tfmt.Println(\"%s CALLS\", %s.Calls)\n\t}"
+                     % (pkg, pkg, pkg, pkg, pkg))
+        L.append("}")
+        open(ws.root + "/cmd/spell/main.go", "w").write("\n".join(L) + "\n")
+        rc, out, err = run(["go", "run", "./cmd/spell"], cwd=ws.root, env=dict(GOENV), timeout=300)
+        if rc != 0:
+            fails.append({"stream": "c02-spellings", "why": ["generated injectors do not build / run: " + (out + err)[-500:]]})
+        seen, calls = {}, {}
+        for line in out.split("\n"):
+            ws_ = line.split()
+            if len(ws_) >= 3 and ws_[1] == "CALLS":
+                calls[ws_[0]] = line.split("CALLS", 1)[1].strip()
+            elif len(ws_) == 3:
+                seen.setdefault(ws_[0], {})[ws_[1]] = ws_[2]
+        for pkg, picks, nuse, fields in ok:
+            for i in picks:
+                ptrs = {seen.get(pkg, {}).get("FC%d_%d" % (i, c)) for c in range(nuse[i])}
+                n = (calls.get(pkg, "")).count("p%d" % i)
+                if len(ptrs) != 1 or n != 1:
+                    a, b = SPELLINGS[i][0], SPELLINGS[i][1]
+                    fails.append({"stream": "c02-spellings", "package": pkg, "wire_gen.go": (ws.read(pkg) or "")[:2500],
+                                  "why": ["the provider of %s (also written %s) ran %d times and its %d consumers saw %d different values"
+                                          % (a, b, n, nuse[i], len(ptrs))]})
+    finally:
+        ws.close()
+    return [], fails
